@@ -98,7 +98,7 @@ func init() {
 	run.Register(&run.Check{
 		ID:    "C04",
 		Level: "exploration",
-		Cases: func(tier string) int { return tierN(tier, 2400, 30000) },
+		Cases: func(tier string) int { return tierN(tier, 8000, 160000) },
 		Run:   runC04,
 		Rule: "case = (multihash-primary configuration with small file limits, key universe, history interleaved with primary GC cycles (low-use threshold from {1,25,50,74,85,100}) and index GC cycles (scan-free on/off), with and without a preceding flush, some stopped midway by a synthetic deadline and resumed later); every key is probed after every cycle and the history ends with reopen; " +
 			"non-trivial iff some cycle observably did work (marked/merged/truncated/unlinked an index or primary record or file, applied freelist entries or relocated a record) AND >=2 keys shared a bucket; distinct = hash of (configuration, digests, operations)",
